@@ -1030,4 +1030,22 @@ theorem split_dump : dumpOf (processAll R' {} plug) o = dumpOf (processAll R {} 
 end Ex4
 
 
+/-- `IncludeEqInlineAugments` on `Ex4`, with its hypotheses shown to hold (`Ex4.isSplit`,
+`Ex4.noLeftover`, no deviation statement) and the conclusion kernel-evaluated. -/
+theorem include_eq_inline_augments_example :
+    IsSplitOf Ex4.sp Ex4.R Ex4.R' Ex.plug Ex.plug ∧ (∀ x ∈ Ex4.R.mods, x.stmt.all "deviation" = []) ∧
+    Lemmas.IncludeAugOrder.NoLeftover Ex4.R {} Ex.plug ∧ IncludeEqInlineAugments Ex4.sp Ex4.R Ex4.R' {} Ex.plug Ex.plug := by
+  have h2 : ∀ x ∈ Ex4.R.mods, x.stmt.all "deviation" = [] := by
+    intro x hx
+    rcases Ex4.mem_R hx with rfl | rfl | rfl <;> rfl
+  have h4 : IncludeEqInlineAugments Ex4.sp Ex4.R Ex4.R' {} Ex.plug Ex.plug := by
+    intro _ _ _
+    exact ⟨Ex4.split_clean, Ex4.split_dump⟩
+  exact ⟨Ex4.isSplit, h2, Ex4.noLeftover, h4⟩
+
+/-- The hypotheses of `include_augment_loop_order` / `include_augment_loop_clean_iff` on `R'` hold of `Ex4`
+(`AugArgsPlain`: the arguments `/t:keep`, `/t:keep/ma:y` — shown as in Props/C07Bridge.lean, `String.splitOn`
+does not reduce in the kernel). -/
+example : Lemmas.Fuel.LoadedShape Ex4.R' ∧ Lemmas.Bridge.AugPosDistinct Ex4.R' := by decide +kernel
+
 end Goyang.Props.C13Include
